@@ -42,8 +42,21 @@ fn position_to_index(source: &[char], position: Position) -> usize {
         .take(position.line as usize + 1)
         .collect();
 
-    let line_end_idx = newline_indices.pop().unwrap_or(source.len());
-    let line_start_idx = newline_indices.pop().unwrap_or(0);
+    // The last line of a document that does not end in a newline has no newline of its own to
+    // mark its end: it runs from the last newline to the end of the document.
+    let on_unterminated_last_line = position.line > 0
+        && newline_indices.len() == position.line as usize
+        && newline_indices
+            .last()
+            .is_some_and(|last_line_start| *last_line_start < source.len());
+
+    let (line_start_idx, line_end_idx) = if on_unterminated_last_line {
+        (newline_indices.pop().unwrap_or(0), source.len())
+    } else {
+        let line_end_idx = newline_indices.pop().unwrap_or(source.len());
+        let line_start_idx = newline_indices.pop().unwrap_or(0);
+        (line_start_idx, line_end_idx)
+    };
 
     let mut traversed_cols = 0;
 
